@@ -15,7 +15,10 @@ use core::{fmt::Debug, ops::Range};
 
 use crate::{
     geom::Vertex,
-    math::{point::Point3, Lerp, Vary},
+    math::{
+        point::{pt3, Point3},
+        Lerp, Vary,
+    },
 };
 
 use super::Screen;
@@ -83,8 +86,8 @@ impl<V: Vary> Iterator for ScanlineIter<V> {
         // Compute the edge positions from the scanline number rather than by
         // repeated addition, the rounding error of which would accumulate
         // over hundreds of scanlines and misplace the edges
-        let x0 = self.xs0.0 + self.k * self.dxs_dy.0;
-        let x1 = self.xs0.1 + self.k * self.dxs_dy.1;
+        let xl = self.xs0.0 + self.k * self.dxs_dy.0;
+        let xr = self.xs0.1 + self.k * self.dxs_dy.1;
         self.k += 1.0;
 
         // Find the next pixel centers to the right
@@ -95,10 +98,13 @@ impl<V: Vary> Iterator for ScanlineIter<V> {
         // Similarly, if x_right.fract() < 0.5 that's the "one-past-the-end"
         // pixel, otherwise it's the last covered pixel and the next one is
         // the actual one-past-the-end pixel.
-        let (x0, x1) = (round_up_to_half(x0), round_up_to_half(x1));
+        let (x0, x1) = (round_up_to_half(xl), round_up_to_half(xr));
 
-        // Adjust v0 to match the rounded x0
-        let v0 = v0.lerp(&v0.step(&self.dv_dx), x0 - v0.0.x());
+        // Adjust v0 to match the rounded x0. The x coordinate of v0 itself
+        // is accumulated and drifts, unlike the values it carries; measure
+        // the step from the edge position computed above instead
+        let v0 = (pt3(xl, v0.0.y(), v0.0.z()), v0.1);
+        let v0 = v0.lerp(&v0.step(&self.dv_dx), x0 - xl);
 
         let vs = v0.vary(self.dv_dx.clone(), Some((x1 - x0) as u32));
 
